@@ -31,6 +31,7 @@ type Loaded struct {
 	fset         *token.FileSet
 	overlay      map[string][]byte
 	srcHash      map[string]string
+	dropped      map[string]string // harness files excluded because they do not compile against this tree
 }
 
 func (l *Loaded) isRepoPkg(path string) bool {
@@ -77,6 +78,29 @@ func loadProgram(pkgPaths []string) (*Loaded, error) {
 	if err != nil {
 		return nil, err
 	}
+	// A harness file that no longer compiles against the tree under test (it reaches into internals
+	// that were refactored) is dropped and the load repeated, so that the remaining harnesses still
+	// run; the harnesses it defined are reported as inconclusive by the caller.
+	dropped := map[string]string{}
+	for attempt := 0; attempt < 4; attempt++ {
+		l, bad, err := loadWithOverlay(pkgPaths, ov)
+		if err == nil {
+			l.dropped = dropped
+			return l, nil
+		}
+		if len(bad) == 0 {
+			return nil, err
+		}
+		for f, msg := range bad {
+			delete(ov, f)
+			dropped[f] = msg
+			fmt.Fprintf(os.Stderr, "harness file dropped (does not compile against this tree): %s: %s\n", f, msg)
+		}
+	}
+	return nil, fmt.Errorf("harness files keep failing to compile")
+}
+
+func loadWithOverlay(pkgPaths []string, ov map[string][]byte) (*Loaded, map[string]string, error) {
 	fset := token.NewFileSet()
 	cfg := &packages.Config{
 		Mode:       packages.NeedName | packages.NeedFiles | packages.NeedCompiledGoFiles | packages.NeedImports | packages.NeedDeps | packages.NeedTypes | packages.NeedSyntax | packages.NeedTypesInfo | packages.NeedTypesSizes | packages.NeedModule,
@@ -92,19 +116,29 @@ func loadProgram(pkgPaths []string) (*Loaded, error) {
 	}
 	pkgs, err := packages.Load(cfg, pats...)
 	if err != nil {
-		return nil, err
+		return nil, nil, err
 	}
 	nerr := 0
+	bad := map[string]string{}
 	packages.Visit(pkgs, nil, func(p *packages.Package) {
 		for _, e := range p.Errors {
 			if strings.HasPrefix(p.PkgPath, repoMod) {
 				fmt.Fprintf(os.Stderr, "load error: %s: %v\n", p.PkgPath, e)
 				nerr++
+				// position "file:line:col"
+				if i := strings.Index(e.Pos, ":"); i > 0 {
+					f := e.Pos[:i]
+					if _, isOv := ov[f]; isOv && strings.HasPrefix(filepath.Base(f), "zz_verif") {
+						if _, seen := bad[f]; !seen {
+							bad[f] = e.Msg
+						}
+					}
+				}
 			}
 		}
 	})
 	if nerr > 0 {
-		return nil, fmt.Errorf("%d load errors in repo/harness packages", nerr)
+		return nil, bad, fmt.Errorf("%d load errors in repo/harness packages", nerr)
 	}
 	prog, spkgs := ssautil.AllPackages(pkgs, ssa.InstantiateGenerics)
 	prog.Build()
@@ -129,7 +163,7 @@ func loadProgram(pkgPaths []string) (*Loaded, error) {
 	}
 	l.reflMarker = types.NewNamed(types.NewTypeName(token.NoPos, nil, "nativeReflType", nil), types.NewStruct(nil, nil), nil)
 	l.ctxMarker = types.NewNamed(types.NewTypeName(token.NoPos, nil, "nativeCtx", nil), types.NewStruct(nil, nil), nil)
-	return l, nil
+	return l, nil, nil
 }
 
 // fileHash returns a short hash of a source file as currently on disk (or in the overlay).
